@@ -567,6 +567,59 @@ static void put_u64(ref::Bytes& b, size_t off, uint64_t v, bool le)
     for (int i = 0; i < 8 && off + i < b.size(); ++i)
         b[off + i] = static_cast<uint8_t>(le ? v >> (8 * i) : v >> (8 * (7 - i)));
 }
+// Feeds one byte string to decoder K (and, for compressed kinds, to the bare decompressor) under the C05 oracle.
+template <int K>
+static void c05_feed(const ref::Bytes& blob, Ctx& ctx, const std::string& kn, bool lab = true)
+{
+    using T = KT<K>;
+    LibBytes lb = to_lib(blob);
+    bool returned = false;
+    try
+    {
+        auto back = T::dec(lb);
+        returned = true;
+        (void)back;
+    }
+    catch (const std::exception&)
+    {
+    }
+    catch (...)
+    {
+        VF_CHECK(false, kn << ": decoder threw something not derived from std::exception");
+    }
+    if (lab)
+        ctx.label(returned ? kn + ":returned" : kn + ":rejected");
+    ctx.nontrivial = true;
+    // also feed the bare decompressor
+    if (ref::compressed(K))
+    {
+        try
+        {
+            auto out = djinterop::engine::zlib_uncompress(lb);
+            if (lab)
+                ctx.label("zlib:returned");
+            // the decompressor's answer must be what one-shot zlib says, whenever that is well-defined
+            try
+            {
+                ref::Unframed u = ref::unframe(blob);
+                if (!u.no_data)
+                    VF_CHECK(to_ref(out) == u.payload, "zlib_uncompress returns different bytes than one-shot inflate");
+            }
+            catch (const ref::Malformed&)
+            {
+            }
+        }
+        catch (const std::exception&)
+        {
+            if (lab)
+                ctx.label("zlib:rejected");
+        }
+        catch (...)
+        {
+            VF_CHECK(false, "zlib_uncompress threw something not derived from std::exception");
+        }
+    }
+}
 template <int K>
 struct C05
 {
@@ -751,50 +804,7 @@ struct C05
         }
         ctx.describe = kn + " [" + mut + "| " + fr + "] blob=" + hex(blob.data(), blob.size(), 120);
         ctx.key = kn + hex(blob.data(), blob.size(), 100000);
-        LibBytes lb = to_lib(blob);
-        bool returned = false;
-        try
-        {
-            auto back = T::dec(lb);
-            returned = true;
-            (void)back;
-        }
-        catch (const std::exception&)
-        {
-        }
-        catch (...)
-        {
-            VF_CHECK(false, kn << ": decoder threw something not derived from std::exception");
-        }
-        ctx.label(returned ? kn + ":returned" : kn + ":rejected");
-        ctx.nontrivial = true;
-        // also feed the bare decompressor
-        if (ref::compressed(K))
-        {
-            try
-            {
-                auto out = djinterop::engine::zlib_uncompress(lb);
-                ctx.label("zlib:returned");
-                // the decompressor's answer must be what one-shot zlib says, whenever that is well-defined
-                try
-                {
-                    ref::Unframed u = ref::unframe(blob);
-                    if (!u.no_data)
-                        VF_CHECK(to_ref(out) == u.payload, "zlib_uncompress returns different bytes than one-shot inflate");
-                }
-                catch (const ref::Malformed&)
-                {
-                }
-            }
-            catch (const std::exception&)
-            {
-                ctx.label("zlib:rejected");
-            }
-            catch (...)
-            {
-                VF_CHECK(false, "zlib_uncompress threw something not derived from std::exception");
-            }
-        }
+        c05_feed<K>(blob, ctx, kn);
     }
 };
 static void prop_c05(const Case& c, Ctx& ctx)
@@ -803,6 +813,364 @@ static void prop_c05(const Case& c, Ctx& ctx)
     int kind = static_cast<int>(s.below(ref::KIND_COUNT));
     dispatch<C05>(kind, s, ctx);
 }
+
+// ------------------------------------------------------------------------------------------------------ C05.enum
+// Deterministic, complete enumeration of the near neighbourhood of a fixed set of valid blobs (the part of C05's quantifier that
+// says "exhaustive over short inputs, all truncations and single-byte corruptions of valid blobs, all boundary values of every
+// embedded count/length field").  Case i is a pure function of i: no randomness is involved.  For every kind a fixed list of seed
+// payloads is made by the value generators from fixed choice streams (small values, so that every position can be visited); for
+// every seed:  T every truncation of the payload (re-framed);  B every payload position x {^0x01, ^0x80, =0x00, =0xff} (re-framed);
+// Z every truncation of the framed blob;  F every position of the framed blob x the same four byte mutations;  C every embedded
+// count field x every boundary value (re-framed);  P the 4-byte length prefix x boundary values;  S every truncation of the
+// level-0 (stored blocks) frame.  Globally: X every byte string of length <= 2 into each of the 12 entry points (in blocks of 257
+// sharing the first byte), Y a length prefix followed by every string of length <= 2 (compressed kinds) / an 8-byte count followed by
+// every string of length <= 2 (loops).
+struct EnumSeed
+{
+    int kind;
+    ref::Bytes payload;
+    ref::Bytes framed;   // default level (== payload for loops)
+    ref::Bytes stored;   // level 0
+    std::vector<size_t> count_offs;
+    size_t entries;
+};
+struct EnumSeg
+{
+    char fam;
+    int seed;        // index into seeds, or the entry point (0..11) for X / Y
+    uint64_t n;
+    uint64_t start;
+};
+struct EnumSpace
+{
+    std::vector<EnumSeed> seeds;
+    std::vector<EnumSeg> segs;
+    uint64_t total = 0;
+    std::string error;
+};
+template <int K>
+struct MkSeeds
+{
+    static void run(EnumSpace& sp, size_t per_kind, size_t max_payload)
+    {
+        using T = KT<K>;
+        std::set<ref::Bytes> seen;
+        size_t got = 0;
+        for (uint64_t cand = 0; cand < 4000 && got < per_kind; ++cand)
+        {
+            vf::Record rec;
+            Bulk b(0xC05E0000ull + 7919ull * K + cand);
+            for (int i = 0; i < 400; ++i)
+                rec.push_back(b.next());
+            S s(rec);
+            GenOpts o;
+            o.whole_domain = false;
+            o.sorted_grids = true;
+            Ctx scratch;
+            scratch.tier = "quick";
+            ref::Bytes payload;
+            size_t entries = 0;
+            try
+            {
+                auto v = T::gen(s, scratch, o);
+                entries = entry_count(v);
+                payload = ref::write_payload(ref::layout(K), toks(v));
+            }
+            catch (const std::exception&)
+            {
+                continue;
+            }
+            if (payload.empty() || payload.size() > max_payload || !seen.insert(payload).second)
+                continue;
+            // alternate: seeds with and without repeated entries (fixed-size kinds have none)
+            bool fixed = K == ref::V2_TRACK_DATA || K == ref::V1_TRACK_DATA;
+            if (!fixed && got % 3 != 0 && entries == 0)
+                continue;
+            EnumSeed e;
+            e.kind = K;
+            e.payload = payload;
+            e.framed = ref::compressed(K) ? ref::frame(payload, -1) : payload;
+            if (ref::compressed(K))
+                e.stored = ref::frame(payload, 0);
+            e.entries = entries;
+            switch (K)
+            {
+                case ref::V2_BEAT_DATA:
+                case ref::V1_BEAT_DATA:
+                {
+                    e.count_offs.push_back(17);
+                    // the second grid's count sits behind the first grid
+                    uint64_t n1 = 0;
+                    for (int i = 0; i < 8 && 17 + i < (int)payload.size(); ++i)
+                        n1 = (n1 << 8) | payload[17 + i];
+                    if (n1 < 100000 && 25 + 24 * n1 + 8 <= payload.size())
+                        e.count_offs.push_back(25 + 24 * n1);
+                    break;
+                }
+                case ref::V2_QUICK_CUES:
+                case ref::V1_QUICK_CUES:
+                case ref::V2_LOOPS:
+                case ref::V1_LOOPS: e.count_offs.push_back(0); break;
+                case ref::V2_OVERVIEW:
+                case ref::V1_OVERVIEW:
+                case ref::V1_HIGH_RES:
+                    e.count_offs.push_back(0);
+                    e.count_offs.push_back(8);
+                    break;
+                default: break;
+            }
+            sp.seeds.push_back(std::move(e));
+            ++got;
+        }
+        if (got < per_kind)
+            sp.error += std::string(ref::kind_name(K)) + ": only " + std::to_string(got) + " enumeration seeds; ";
+    }
+};
+static uint8_t enum_apply(uint8_t old, int op)
+{
+    switch (op)
+    {
+        case 0: return old ^ 0x01;
+        case 1: return old ^ 0x80;
+        case 2: return 0x00;
+        default: return 0xff;
+    }
+}
+static std::vector<uint64_t> enum_count_values(const EnumSeed& e)
+{
+    std::vector<uint64_t> v = count_edges();
+    v.push_back(e.entries - 1);
+    v.push_back(e.entries);
+    v.push_back(e.entries + 1);
+    v.push_back(0xfffffffffffffffeull);
+    v.push_back(0x0555555555555555ull);  // 3 * v wraps to -1 in 64 bits
+    v.push_back(0x0aaaaaaaaaaaaaabull);  // 24 * v wraps to a small number
+    return v;
+}
+static std::vector<uint32_t> enum_prefixes(uint32_t n)
+{
+    return {0, 1, n - 1, n + 1, 2 * n, 0x7fffffffu, 0x80000000u, 0xffffffffu, 0x40000000u, 0x00010000u};
+}
+static EnumSpace build_enum_space(size_t per_kind, size_t max_payload)
+{
+    EnumSpace sp;
+    for (int K = 0; K < ref::KIND_COUNT; ++K)
+        dispatch<MkSeeds>(K, sp, per_kind, max_payload);
+    auto push = [&](char fam, int seed, uint64_t n)
+    {
+        if (!n)
+            return;
+        sp.segs.push_back({fam, seed, n, sp.total});
+        sp.total += n;
+    };
+    for (size_t i = 0; i < sp.seeds.size(); ++i)
+    {
+        const EnumSeed& e = sp.seeds[i];
+        bool z = ref::compressed(e.kind);
+        push('T', (int)i, e.payload.size());  // truncations to 0..size-1 bytes
+        push('B', (int)i, 4 * e.payload.size());
+        if (z)
+        {
+            push('Z', (int)i, e.framed.size());
+            push('F', (int)i, 4 * e.framed.size());
+            push('P', (int)i, enum_prefixes(0).size());
+            push('S', (int)i, e.stored.size());
+        }
+        push('C', (int)i, e.count_offs.size() * enum_count_values(e).size());
+    }
+    for (int ep = 0; ep < 12; ++ep)
+        push('X', ep, 257);  // block b < 256: {b}, {b,x} for all x; block 256: the empty string
+    for (int ep = 0; ep < 11; ++ep)
+        push('Y', ep, (ref::compressed(ep) ? 4 : 4) * 256 + 4);
+    return sp;
+}
+static const EnumSpace& enum_space(bool large)
+{
+    static EnumSpace small = build_enum_space(6, 420);
+    static EnumSpace big;
+    static bool big_built = false;
+    if (large && !big_built)
+    {
+        big = build_enum_space(30, 1500);
+        big_built = true;
+    }
+    return large ? big : small;
+}
+template <int K>
+struct EnumFeed
+{
+    static void run(const ref::Bytes& blob, Ctx& ctx, bool lab) { c05_feed<K>(blob, ctx, ref::kind_name(K), lab); }
+};
+static void enum_feed_ep(int ep, const ref::Bytes& blob, Ctx& ctx, bool lab)
+{
+    if (ep < 11)
+    {
+        dispatch<EnumFeed>(ep, blob, ctx, lab);
+        return;
+    }
+    LibBytes lb = to_lib(blob);
+    try
+    {
+        auto out = djinterop::engine::zlib_uncompress(lb);
+        try
+        {
+            ref::Unframed u = ref::unframe(blob);
+            if (!u.no_data)
+                VF_CHECK(to_ref(out) == u.payload, "zlib_uncompress returns different bytes than one-shot inflate");
+        }
+        catch (const ref::Malformed&)
+        {
+        }
+    }
+    catch (const std::exception&)
+    {
+    }
+    catch (...)
+    {
+        VF_CHECK(false, "zlib_uncompress threw something not derived from std::exception");
+    }
+    ctx.nontrivial = true;
+}
+static void prop_c05_enum_impl(const Case& c, Ctx& ctx, bool large)
+{
+    const EnumSpace& sp = enum_space(large);
+    VF_CHECK(sp.error.empty(), "generator defect: " << sp.error);
+    uint64_t idx = c.empty() || c[0].empty() ? 0 : c[0][0];
+    VF_CHECK(idx < sp.total, "index outside the enumeration");
+    size_t lo = 0, hi = sp.segs.size();
+    while (hi - lo > 1)
+    {
+        size_t mid = (lo + hi) / 2;
+        if (sp.segs[mid].start <= idx)
+            lo = mid;
+        else
+            hi = mid;
+    }
+    const EnumSeg& g = sp.segs[lo];
+    uint64_t j = idx - g.start;
+    std::string fam(1, g.fam);
+    if (g.fam == 'X' || g.fam == 'Y')
+    {
+        int ep = g.seed;
+        std::string kn = ep < 11 ? ref::kind_name(ep) : "zlib_uncompress";
+        ctx.label("kind=" + kn);
+        ctx.label("enum:" + fam);
+        ref::Bytes head;
+        uint64_t blocks = 256;
+        if (g.fam == 'Y')
+        {
+            // 4 heads x 256 first bytes, then the 4 bare heads
+            static const uint8_t zheads[4][4] = {{0, 0, 0, 1}, {0, 0, 0, 2}, {0, 0, 1, 0}, {0x7f, 0xff, 0xff, 0xff}};
+            static const uint8_t lheads[4] = {0, 1, 2, 255};
+            uint64_t h = j < 1024 ? j / 256 : j - 1024;
+            if (ref::compressed(ep))
+                head.assign(zheads[h], zheads[h] + 4);
+            else
+            {
+                head.assign(8, 0);
+                head[0] = lheads[h];
+            }
+            if (j >= 1024)
+                blocks = 0;  // just the head
+            j = j % 256;
+        }
+        else if (j == 256)
+            blocks = 0;  // the empty string
+        ctx.describe = kn + " enum " + fam + " head=" + hex(head.data(), head.size(), 16) + (blocks ? " first=" + std::to_string(j) : " bare");
+        ctx.key = ctx.describe;
+        if (!blocks)
+        {
+            enum_feed_ep(ep, head, ctx, true);
+            return;
+        }
+        ref::Bytes b = head;
+        b.push_back(static_cast<uint8_t>(j));
+        enum_feed_ep(ep, b, ctx, true);
+        b.push_back(0);
+        for (int x = 0; x < 256; ++x)
+        {
+            b.back() = static_cast<uint8_t>(x);
+            try
+            {
+                enum_feed_ep(ep, b, ctx, false);
+            }
+            catch (const vf::Fail& f)
+            {
+                throw vf::Fail(std::string(f.what()) + " [input " + hex(b.data(), b.size(), 32) + "]");
+            }
+        }
+        return;
+    }
+    const EnumSeed& e = sp.seeds[g.seed];
+    std::string kn = ref::kind_name(e.kind);
+    ctx.label("kind=" + kn);
+    ctx.label("enum:" + fam);
+    ref::Bytes blob;
+    std::string what;
+    bool z = ref::compressed(e.kind);
+    auto reframe = [&](const ref::Bytes& p) { return z ? ref::frame(p, -1) : p; };
+    switch (g.fam)
+    {
+        case 'T':
+        {
+            ref::Bytes p(e.payload.begin(), e.payload.begin() + j);
+            blob = reframe(p);
+            what = "payload cut to " + std::to_string(j) + "/" + std::to_string(e.payload.size());
+            break;
+        }
+        case 'B':
+        {
+            ref::Bytes p = e.payload;
+            p[j / 4] = enum_apply(p[j / 4], (int)(j % 4));
+            blob = reframe(p);
+            what = "payload byte " + std::to_string(j / 4) + " op " + std::to_string(j % 4);
+            break;
+        }
+        case 'Z':
+            blob.assign(e.framed.begin(), e.framed.begin() + j);
+            what = "frame cut to " + std::to_string(j) + "/" + std::to_string(e.framed.size());
+            break;
+        case 'S':
+            blob.assign(e.stored.begin(), e.stored.begin() + j);
+            what = "stored frame cut to " + std::to_string(j) + "/" + std::to_string(e.stored.size());
+            break;
+        case 'F':
+            blob = e.framed;
+            blob[j / 4] = enum_apply(blob[j / 4], (int)(j % 4));
+            what = "frame byte " + std::to_string(j / 4) + " op " + std::to_string(j % 4);
+            break;
+        case 'P':
+        {
+            blob = e.framed;
+            uint32_t p = enum_prefixes(static_cast<uint32_t>(e.payload.size()))[j];
+            blob[0] = p >> 24;
+            blob[1] = p >> 16;
+            blob[2] = p >> 8;
+            blob[3] = p;
+            what = "prefix=" + std::to_string(p);
+            break;
+        }
+        default:
+        {
+            auto vals = enum_count_values(e);
+            size_t off = e.count_offs[j / vals.size()];
+            uint64_t v = vals[j % vals.size()];
+            ref::Bytes p = e.payload;
+            put_u64(p, off, v, e.kind == ref::V2_LOOPS || e.kind == ref::V1_LOOPS);
+            blob = reframe(p);
+            char b[64];
+            snprintf(b, sizeof b, "count@%zu=%llx", off, (unsigned long long)v);
+            what = b;
+            ctx.label("mut:count");
+            break;
+        }
+    }
+    ctx.describe = kn + " enum seed " + std::to_string(g.seed) + " [" + what + "] blob=" + hex(blob.data(), blob.size(), 120);
+    ctx.key = kn + hex(blob.data(), blob.size(), 100000);
+    enum_feed_ep(e.kind, blob, ctx, true);
+}
+static void prop_c05_enum(const Case& c, Ctx& ctx) { prop_c05_enum_impl(c, ctx, false); }
+static void prop_c05_enum_large(const Case& c, Ctx& ctx) { prop_c05_enum_impl(c, ctx, true); }
 
 int main(int argc, char** argv)
 {
@@ -823,5 +1191,15 @@ int main(int argc, char** argv)
     add("C02.dec", prop_c02_dec, 200);
     add("C04", prop_c04, 180);
     add("C05", prop_c05, 200);
+    add("C05.enum", prop_c05_enum, 1);
+    specs.back().enum_total = enum_space(false).total;
+    add("C05.enumL", prop_c05_enum_large, 1);
+    {
+        // the large space costs a second to build: only when it is asked for
+        bool need = argc > 1 && std::string(argv[1]) == "list";
+        for (int i = 1; i < argc; ++i)
+            need = need || std::string(argv[i]) == "C05.enumL";
+        specs.back().enum_total = need ? enum_space(true).total : 1;
+    }
     return vf::pbt_main(argc, argv, specs);
 }
